@@ -18,13 +18,14 @@ TECHNIQUE = (
     "files with their rows"
 )
 RULE = (
-    "case = (n_t, n_d in [100, 1500], decoy law normal/gumbel/gamma, target mixture pi1 0.1-0.8 and separation 1-5 "
+    "case = (n_t, n_d in [50, 1500] (small sizes over-represented), decoy law normal/gumbel/gamma, target mixture pi1 0.1-0.8 and separation 1-5 "
     "sigma, optional rounding to 1-3 decimals (ties), data seed, permutation seed, algorithm in {qvality, kde_nnls, "
     "hist_nnls, from_counts, from_peps}, optional file-level run through assign_confidence). Non-trivial: both classes "
-    ">= 100 and the input is not sorted by score. Distinct = distinct canonical JSON."
+    ">= 50 and the input is not sorted by score. Distinct = distinct canonical JSON."
 )
 ASSUMPTIONS = [
-    "tolerance 1e-9 on monotonicity / equivariance (floating-point summation inside the estimators)",
+    "tolerance 1e-9 on monotonicity and on equivariance for qvality / from_counts; 1e-3 on equivariance for the NNLS-based "
+    "estimators (their active-set solver amplifies summation noise to ~1e-4, measured)",
     "degeneracy errors of the third-party estimators (triqler 'unique scoring bins', singular KDE) are deliberate "
     "rejections and must stay rare",
     "qvality alignment is judged against triqler's own output on the sorted scores (PEP is a function of the score)",
@@ -36,12 +37,15 @@ ALLOWED = [
     (SystemExit, r"unique scoring bins|no decoy hits|no target hits"),
     (np.linalg.LinAlgError, r".*"),
     (ValueError, r"singular|array must not contain infs or NaNs|expected non-empty vector"),
+    # pi0 slope fit on an empty range: the decoy histogram peaks in its first bin (few, skewed scores) - a
+    # degenerate input for the histogram estimators, like triqler's "unique scoring bins"
+    (TypeError, r"expected non-empty vector for x"),
 ]
 
 
 def budget(tier):
     if tier == "quick":
-        return {"examples": 224, "shards": 16, "time_s": 90}
+        return {"examples": 640, "shards": 16, "time_s": 90}
     return {"examples": 12800, "shards": 16, "time_s": 900}
 
 
@@ -50,14 +54,14 @@ def _case(draw, tier):
     big = tier != "quick"
     return {
         "seed": draw(st.integers(0, 2**31 - 1)),
-        "nt": draw(st.integers(100, 1500 if big else 700)),
-        "nd": draw(st.integers(100, 1500 if big else 700)),
+        "nt": draw(st.one_of(st.integers(50, 150), st.integers(100, 1500 if big else 700))),
+        "nd": draw(st.one_of(st.integers(50, 150), st.integers(100, 1500 if big else 700))),
         "law": draw(st.sampled_from(["normal", "gumbel", "gamma"])),
         "pi1": draw(st.integers(10, 80)) / 100.0,
         "sep": draw(st.sampled_from([1.0, 2.0, 3.0, 5.0])),
         "round": draw(st.sampled_from([None, None, 1, 2, 3])),
         "perm": draw(st.integers(0, 2**31 - 1)),
-        "algo": draw(st.sampled_from(["qvality", "qvality", "kde_nnls", "hist_nnls", "hist_nnls", "hist_nnls"] + Q_ALGOS + Q_ALGOS)),
+        "algo": draw(st.sampled_from(["qvality", "kde_nnls"] + ["hist_nnls"] * 6 + ["from_counts"] * 3 + ["from_peps"] * 4)),
         "file_level": draw(st.sampled_from([False, False, False, True])),
     }
 
@@ -153,7 +157,10 @@ def check(case):
             break
         v2 = np.asarray(guarded(f, scores[perm].copy(), targets[perm].copy(), allowed=ALLOWED, sig=algo), dtype=float)
         v2 = np.where(np.isinf(v2), 1e300, v2)
-        bad = np.abs(v2 - vals[perm]) > 1e-9
+        # the NNLS-based estimators amplify 1e-16 summation differences of their (order-dependent) inputs up to ~1e-4;
+        # a PSM carrying another PSM's value differs by orders of magnitude more
+        tol = 1e-3 if algo in ("kde_nnls", "hist_nnls", "from_peps") else 1e-9
+        bad = np.abs(v2 - vals[perm]) > tol
         require(not bad.any(), "misaligned",
                 f"{algo}: f(s[pi], t[pi]) != f(s, t)[pi] for the {name} permutation at {int(bad.sum())} of {n} positions "
                 f"(max diff {float(np.max(np.abs(v2 - vals[perm]))):.3g}): values do not follow their PSM")
@@ -212,4 +219,4 @@ def check(case):
                     counters["file_rows_checked"] = counters.get("file_rows_checked", 0) + len(got)
         classes.append("file-level")
     sorted_in = bool(np.all(np.diff(scores) <= 0))
-    return {"nontrivial": case["nt"] >= 100 and case["nd"] >= 100 and not sorted_in, "classes": classes, "counters": counters}
+    return {"nontrivial": case["nt"] >= 50 and case["nd"] >= 50 and not sorted_in, "classes": classes, "counters": counters}
